@@ -96,6 +96,13 @@ Lemma sim_if_eqn {A1 A2} (R : A1 -> A2 -> Prop) (c : bool) m1 n1 m2 n2 :
   (c = true -> sim R m1 m2) -> (c = false -> sim R n1 n2) -> sim R (if c then m1 else n1) (if c then m2 else n2).
 Proof. destruct c; auto. Qed.
 
+Lemma sim_bind_ret_r {A1 B} (R : A1 -> B -> Prop) m1 (m2 : IM B) :
+  sim R m1 m2 -> sim R m1 (ibind m2 (fun x => iret x)).
+Proof.
+  intros H i Hi. specialize (H i Hi). unfold ibind, iret.
+  destruct (m1 i) as [[a1 i1]|c1|], (m2 i) as [[a2 i2]|c2|]; auto.
+Qed.
+
 (* ---------- the primitives ---------- *)
 
 Lemma nth_byte_ok bs k : bytes_ok bs -> byte_ok (nth k bs 0).
